@@ -139,6 +139,11 @@ def rest_rules(ctx):
         c07.delete_rule(d, fcm)
     from . import c08
     c08.table_rule(dep(ctx, "C17", "C08"))
+    from . import c03
+    c03.maps_rules(dep(ctx, "C17", "C03"), "C03")      # the rank tables depend on k alone, not on what an earlier call built
+    fcov_ = ctx.view(c08.COV)
+    if fcov_ is not None:
+        c08.inputs_rule(dep(ctx, "C17", "C08"), fcov_)        # .. and read afresh from disk by every compute_coverages()
     # G
     fc, fm = ctx.need("C17.G", c07.CHUNK), ctx.need("C17.G", c07.MERGE)
     if fc is not None and fm is not None:
